@@ -105,13 +105,35 @@ def exc_matches(exc: str, handler: str) -> bool:
 
 
 class HList:
-    """heap list; items None = unknown contents"""
-    def __init__(self, items=None, elem="opq"):
+    """heap list; items None = unknown contents (then `length` is a stable
+    symbolic Int and `arr` a symbolic Int->String array when elem == 'str')"""
+    def __init__(self, items=None, elem="opq", minlen=0):
         self.items = items
         self.elem = elem      # kind of unknown elements
+        self.minlen = minlen
+        self.length = None
+        self.arr = None
 
     def copy(self):
-        return HList(None if self.items is None else list(self.items), self.elem)
+        n = HList(None if self.items is None else list(self.items), self.elem, self.minlen)
+        n.length, n.arr = self.length, self.arr
+        return n
+
+    def sym_len(self):
+        if self.length is None:
+            self.length = z3.Int(fresh_name("len"))
+        return self.length
+
+    def sym_arr(self):
+        if self.arr is None:
+            self.arr = z3.Array(fresh_name("arr"), I, S)
+        return self.arr
+
+    def forget(self):
+        """contents become unknown (after an unmodelled mutation)"""
+        self.items = None
+        self.length = None
+        self.arr = None
 
 
 class HDict:
@@ -171,6 +193,8 @@ class Obligation:
     line: int = 0
     verdict: object = None
     detail: str = ""
+    watch: dict = field(default_factory=dict)
+    hints: list = field(default_factory=list)
 
     @property
     def ident(self):
@@ -275,9 +299,11 @@ class X:
         ln = getattr(node, "lineno", 0)
         raise OutOfReach(f"{what} (line {ln})")
 
-    def oblige(self, kind, node_or_site, st, goal, exc="", detail=""):
+    def oblige(self, kind, node_or_site, st, goal, exc="", detail="", watch=None, tag="", hints=None):
         site = node_or_site if isinstance(node_or_site, str) else loader.norm(node_or_site)
         site = site[:160]
+        if tag:
+            site = f"[{tag}] " + site
         key = (kind, site, exc)
         # all paths reaching one site share one ordinal: ordinal counts distinct
         # *sites* with the same text, identified by line
@@ -286,7 +312,8 @@ class X:
         if ln not in lines:
             lines[ln] = len(lines)
         self.obligs.append(Obligation(kind, self.cur_fn, site, lines[ln], list(st.pc), goal,
-                                      exc=exc, prop=self.c.prop, line=ln, detail=detail))
+                                      exc=exc, prop=self.c.prop, line=ln, detail=detail,
+                                      watch=watch or {}, hints=hints or []))
 
     def alloc(self, st: St, obj) -> V:
         hid = next(self.heap_ids)
@@ -603,6 +630,18 @@ class X:
             s.add(c)
         s.add(cond)
         return s.check() != z3.unsat
+
+    def choices(self, st: St, alts):
+        """alts = [(cond, value)]: fork per feasible alternative"""
+        out = []
+        for cond, val in alts:
+            c = z3.simplify(cond)
+            if z3.is_false(c):
+                continue
+            if self.mode == "value" and not z3.is_true(c) and not self.feasible(st, c):
+                continue
+            out.append((st.fork(c), val))
+        return out
 
     def branch(self, st: St, cv: V, then_fn, else_fn):
         t = self.truth_st(cv, st)
@@ -930,7 +969,10 @@ class X:
                     break
                 if its is None or len(its) != len(its0) or any(
                         _item_sig(a) != _item_sig(b) for a, b in zip(its, its0)):
-                    o0.items = None
+                    if isinstance(o0, HList):
+                        o0.forget()
+                    else:
+                        o0.items = None
                     its0 = None
                     break
         return base
@@ -1112,7 +1154,7 @@ class X:
         return self._exprs_to_outcomes(self.ev(s_.test, st, chain), fin)
 
     # may-raise with handler awareness -------------------------------------
-    def check(self, st: St, cond, exc: str, node, cont):
+    def check(self, st: St, cond, exc: str, node, cont, watch=None, tag="", hints=None):
         """operation at `node` raises `exc` unless cond.  cont(st) continues."""
         cond = z3.simplify(cond)
         if z3.is_true(cond):
@@ -1128,12 +1170,13 @@ class X:
             if self.feasible(st, z3.Not(cond)):
                 out.append((st.fork(z3.Not(cond)), ("raise", exc, loader.norm(node)[:80])))
             return out
-        self.oblige("safety", node, st, cond, exc=exc)
+        self.oblige("safety", node, st, cond, exc=exc, watch=watch, tag=tag, hints=hints)
         return cont(st.assume(cond))
 
-    def check_v(self, st: St, cond, exc: str, node, value_fn):
+    def check_v(self, st: St, cond, exc: str, node, value_fn, watch=None, tag="", hints=None):
         """expression-level variant: value_fn(st) -> [(st, V)]"""
-        rs = self.check(st, cond, exc, node, lambda s: [(s, ("val", value_fn(s)))])
+        rs = self.check(st, cond, exc, node, lambda s: [(s, ("val", value_fn(s)))], watch=watch, tag=tag,
+                        hints=hints)
         out = []
         for s, oc in rs:
             if oc[0] == "val":
@@ -1450,16 +1493,35 @@ class X:
             names |= self.assigned_names([s_.target]) if not isinstance(s_.target, ast.Name) else {s_.target.id}
         mutated = self.mutated_names(s_.body)
         self.infer_havoc_kinds(s_, st, chain, names, s_.body)
-        g_entry = dict(st.ghost)
-        # invariant handling for ghosts
-        inv = (spec or {}).get("invariant", [])
         head = st.fork()
         self.havoc(head, chain, names, mutated, s_)
-        if spec and spec.get("havoc_ghost"):
-            for gname in spec["havoc_ghost"]:
-                # inv-init on the entry state
-                pass
+        if spec and (spec.get("havoc_ghost") or spec.get("invariant")):
             self._apply_loop_invariant(s_, st, head, chain, spec, fp)
+        # variables that are Optional[scalar] across iterations: one head state
+        # per combination (none / fresh scalar)
+        heads = [head]
+        for n in sorted(names):
+            ks = self._havoc_kind.get((id(s_), n)) or set()
+            if "none" in ks and len(ks) == 2 and (ks - {"none"}) <= {"str", "int", "bool"}:
+                other = next(iter(ks - {"none"}))
+                sid = next((sid for sid in chain if n in head.scopes.get(sid, {})), chain[0])
+                new_heads = []
+                for h in heads:
+                    h1 = h.fork()
+                    h1.scopes.setdefault(sid, {})[n] = NONE
+                    h2 = h.fork()
+                    h2.scopes.setdefault(sid, {})[n] = fresh(other, "hv_" + n)
+                    new_heads += [h1, h2]
+                heads = new_heads
+        if len(heads) > 1:
+            out = []
+            for h in heads:
+                out.extend(self._loop_from_head(s_, h, chain, itv, spec, fp, is_for))
+            return out
+        return self._loop_from_head(s_, head, chain, itv, spec, fp, is_for)
+
+    def _loop_from_head(self, s_, head, chain, itv, spec, fp, is_for):
+        from . import models
         # message lists may grow in the loop: abstract to unknown base
         for gname, gv in list(head.ghost.items()):
             if gv.k == "glist" and self._loop_may_log(s_.body):
